@@ -211,7 +211,9 @@ Classes ==
              i \in 1..Len(Prog(on[1], on[2]))} :
            on \in {x \in Ops \X (0..MaxPrior) : Valid(x[1], x[2])}}
 
-Export == ndJsonSerialize(IOEnv.VERIF_OUT, SetSeq(Classes))
+\* (TLC refuses a constant-level POSTCONDITION; the register read makes it state-independent but not constant)
+ASSUME TLCSet(9, 0)
+Export == TLCGet(9) = 0 /\ ndJsonSerialize(IOEnv.VERIF_OUT, SetSeq(Classes))
 
 Alias == [opn |-> opn, prior |-> prior, pc |-> pc, why |-> Culprits]
 =============================================================================
